@@ -215,6 +215,54 @@ def one(M, rec, rng, g, desc, pars, st, concat=False):
                     rec.sample({"desc": desc, "declared_parameters": list(sym.parameters), "values": pvals, "compact": compact})
 
 
+def parameter_table(M, rec, rng, reps):
+    """One matrix-shaped parameter symbol - a table with one row per link and the columns (critical density, free-flow speed,
+    exponent) - declared as a single entry of `parameters`; the links are built from its entries: evaluated at the table of
+    numbers the function behaves like the network compiled with those numbers."""
+    from sym_metanet.engines.casadi import Engine as CE
+
+    kw = dict(T=10 / 3600, tau=18 / 3600, eta=60.0, kappa=40.0)
+    for it in range(reps):
+        st = ("SX", "MX")[it % 2]
+        XX = getattr(cs, st)
+        n_l = 3
+        table = np.array([[round(rng.uniform(28, 38), 1), round(rng.uniform(95, 120), 1), round(rng.uniform(1.4, 2.6), 2)] for _ in range(n_l)])
+        P = XX.sym("P", n_l, 3)
+        Ns = [rng.choice((1, 2, 3)) for _ in range(n_l)]
+
+        def build(par):
+            nodes = [M.Node(name=f"N{i}") for i in range(n_l + 1)]
+            path = [nodes[0]]
+            for i in range(n_l):
+                path += [M.Link(Ns[i], 2, 1.0, 180.0, par[i, 0], par[i, 1], par[i, 2], name=f"L{i}"), nodes[i + 1]]
+            net = M.Network().add_path(tuple(path), origin=M.MainstreamOrigin(name="O"), destination=M.Destination(name="D"))
+            net.add_origin(M.MeteredOnRamp(2000.0, name="R"), nodes[1])
+            return net
+
+        try:
+            ns, nn = build(P), build(table)
+            es, en = CE(st), CE(st)
+            ns.step(engine=es, **kw)
+            nn.step(engine=en, **kw)
+            for compact in (0, 1, 2):
+                Fs = es.to_function(ns, compact=compact, more_out=True, parameters={"P": P}, **kw)
+                Fn = en.to_function(nn, compact=compact, more_out=True, **kw)
+                args = [cs.DM([rng.uniform(10, 60) for _ in range(Fn.size1_in(i_))]) for i_ in range(Fn.n_in())]
+                a = Fn(*args)
+                b = Fs(*args, cs.DM(table))
+                a = list(a) if isinstance(a, (list, tuple)) else [a]
+                b = list(b) if isinstance(b, (list, tuple)) else [b]
+                rec.count("parameter_table_checks")
+                for i_, (x_, y_) in enumerate(zip(a, b)):
+                    if not np.allclose(np.asarray(x_, dtype=float), np.asarray(y_, dtype=float), rtol=1e-9, atol=1e-9, equal_nan=True):
+                        rec.violation(f"{PROP}:compact={compact}: with one matrix-shaped parameter (a table, one row per link) the parametric function differs from the function compiled with the numbers",
+                                      {"sym_type": st, "result": Fn.name_out()[i_], "table": table.tolist()})
+                        break
+        except Exception as e:
+            rec.violation(f"{PROP}:a matrix-shaped parameter (a table, one row per link) declared as one entry: compiling / evaluating raised {type(e).__name__} although the network compiles with the numbers",
+                          {"sym_type": st, "exception": repr(e)[:300]})
+
+
 def user_kind_with_a_keyword_parameter(M, rec, rng, reps):
     """A user-defined ramp whose flow law takes one more model parameter by keyword (`q_max`, with a default); it
     travels with the step's other parameters.  Declared as a symbolic parameter it must behave like the number."""
@@ -274,6 +322,7 @@ def run(M, rec, tier, seed, k, n):
         for st in ("SX", "MX"):
             one(M, rec, rng, g, desc, pars, st, concat=(it % 5 == 3))
     user_kind_with_a_keyword_parameter(M, rec, rng, 12 if tier == "quick" else 100)
+    parameter_table(M, rec, rng, 12 if tier == "quick" else 100)
 
 
 def finish(M, rec, write=True):
